@@ -47,24 +47,41 @@ let run_ops (line : string) (answer : (int, unit, int * int) stack -> hook -> st
 let show (own, seen) = Printf.sprintf "%d:%d" own seen
 
 (* ---- cache histories ("C" lines) ------------------------------------------------------- *)
-let base_page_layer : (int, (BinNums.coq_N * BinNums.coq_N), CbCache.coq_PR) layer =
+let base_page_layer (bcaps : int) (served : int) : (int, (BinNums.coq_N * BinNums.coq_N), CbCache.hres) layer =
   { l_priv = 1;
     l_hook = (fun h -> match h with
-                       | HGetPage -> Some (fun _ (a_as, a) -> CbCache.cb_page_source a_as a)
+                       | HGetPage -> Some (fun _ (a_as, a) ->
+                           let i = int_of_n a_as in
+                           if i > 2 || served land (1 lsl i) = 0 then CbCache.HPage None
+                           else CbCache.HPage (CbCache.cb_page_source a_as a))
+                       | HReadCaps -> Some (fun _ _ -> CbCache.HCaps (n_of_int bcaps))
                        | _ -> None) }
-let def_layer : (int, (BinNums.coq_N * BinNums.coq_N), CbCache.coq_PR) layer =
-  { l_priv = 0; l_hook = (fun _ -> Some (fun _ _ -> None)) }
+let def_layer : (int, (BinNums.coq_N * BinNums.coq_N), CbCache.hres) layer =
+  { l_priv = 0; l_hook = (fun h -> match h with
+                                   | HReadCaps -> Some (fun _ _ -> CbCache.HCaps BinNums.N0)
+                                   | _ -> Some (fun _ _ -> CbCache.HPage None)) }
+
+(* B<mask> / V<mask> configure the base layer *)
+let base_config (line : string) : int * int =
+  Stdlib.List.fold_left (fun (b, v) tok ->
+    let rest = String.sub tok 1 (String.length tok - 1) in
+    match tok.[0] with
+    | 'B' -> (int_of_string ("0x" ^ rest), v)
+    | 'V' -> (b, int_of_string ("0x" ^ rest))
+    | _ -> (b, v)) (3, 3) (words line)
 
 let parse_hops (line : string) : int CbCache.hop list =
   Stdlib.List.filter_map (fun tok ->
     let rest = String.sub tok 1 (String.length tok - 1) in
     match tok.[0] with
-    | '+' -> Some (CbCache.HAdd 7)
+    | '+' -> if rest <> "" && rest.[0] = 'c'
+             then Some (CbCache.HAddCaps (7, n_of_hex (String.sub rest 1 (String.length rest - 1))))
+             else Some (CbCache.HAdd 7)
     | '-' -> Some (CbCache.HDel (nat_of_int (int_of_string rest)))
     | 'R' -> (match split_on ':' rest with
               | [a_as; a] -> Some (CbCache.HRead (n_of_hex a_as, n_of_hex a, n_of_int 8))
               | _ -> failwith "bad R")
-    | 'C' -> None
+    | 'C' | 'B' | 'V' -> None
     | _ -> failwith ("bad cache op " ^ tok)) (words line)
 
 let le_value (l : BinNums.coq_N list) : string =
@@ -95,7 +112,8 @@ let probe_case (line : string) : string =
 
 let cache_case (line : string) : string =
   let ops = parse_hops line in
-  let st0 = { CbCache.h_stack = [base_page_layer; def_layer]; CbCache.h_cache = ReadCache.init_cache } in
+  let (bc, sv) = base_config line in
+  let st0 = { CbCache.h_stack = [base_page_layer bc sv; def_layer]; CbCache.h_cache = ReadCache.init_cache } in
   let ((st', ev), rs) = CbCache.hrun st0 ops in
   let fin = ReadCache.cleanup_events st'.CbCache.h_cache in
   let gets = count (function ReadCache.Got _ -> true | _ -> false) ev in
@@ -109,15 +127,34 @@ let cache_case (line : string) : string =
 let cachespec_case (line : string) : string =
   match split_on '|' line with
   | [opsl; ansl] ->
-      let ops = parse_hops (String.trim opsl) and ans = words ansl in
-      let reads = Stdlib.List.filter_map (function CbCache.HRead (s, a, n) -> Some (s, a, n) | _ -> None) ops in
+      let opsl = String.trim opsl in
+      let ops = parse_hops opsl and ans = words ansl in
+      let (bc, sv) = base_config opsl in
+      (* the spec's own view of the stack: the read capabilities are those of the first read_caps
+         implementation at or below the top (CbSpec.invoke_spec); the page source is the base layer's *)
+      let stack = ref [base_page_layer bc sv; def_layer] in
+      let expected = ref [] in
+      Stdlib.List.iter (fun o -> match o with
+        | CbCache.HAdd p -> stack := add_cb p !stack
+        | CbCache.HAddCaps (p, m) -> stack := CbCache.caps_layer p m :: !stack
+        | CbCache.HDel i -> stack := del_cb i !stack
+        | CbCache.HBury _ -> ()
+        | CbCache.HRead (s, a, n) ->
+            let mask = match CbSpec.invoke_spec !stack HReadCaps (BinNums.N0, BinNums.N0) with
+              | Some (CbCache.HCaps m) -> m | _ -> BinNums.N0 in
+            let src x y = match CbSpec.invoke_spec !stack HGetPage (x, y) with
+              | Some (CbCache.HPage r) -> r | _ -> None in
+            let want = match CbCache.eff_as mask s with
+              | None -> "5:0"
+              | Some s' -> show_rres (ReadCache.direct src s' a n) in
+            expected := (s, a, want) :: !expected) ops;
+      let reads = Stdlib.List.rev !expected in
       let nr = Stdlib.List.length reads in
       if Stdlib.List.length ans <> nr + 4 then "malformed answer" else
       let rec go rs al = match rs, al with
-        | (s, a, n) :: rs', x :: al' ->
-            let want = show_rres (ReadCache.direct CbCache.cb_page_source s a n) in
+        | (s, a, want) :: rs', x :: al' ->
             if x = want then go rs' al'
-            else Printf.sprintf "read of %s:%s returns %s, the page source holds %s (bytes of a page that was already given back?)"
+            else Printf.sprintf "read of %s:%s returns %s; the implementation in charge of read_caps and the page source at that moment give %s"
                    (hex_of_n s) (hex_of_n a) x want
         | _, tr ->
             (match tr with
